@@ -19,19 +19,22 @@ theorem insertBefore_unfold (f : Forest) (ref new : Nat) :
       if f.prevSibling ref == some new then (f, .ok) else
       insertBeforeTail (f.removeConsolidate (f.prevSibling new) (f.nextSibling new)).1 ref new := rfl
 
-/-- The far geometry. -/
-theorem insertBeforeTail_far {f : Forest} {c : Nat} {t : HTree} {q : Nat} {vq : Value} {A : List HTree}
-    {kr : HTree} {B : List HTree} {X Y : Forest} {φ : HTree → HTree} (inv : f.Inv) (norm : f.Normal)
-    (F : Far f (Keep.resident c) c t q vq (A ++ kr :: B) X Y φ) (sq : SiteAt f q vq (A ++ kr :: B))
-    (hxs : ∃ φ', KidMap φ' ∧ SiteAt X q vq ((A ++ kr :: B).map φ'))
+/-- The second half of `insert_before` against the specification, given the package `Far` and
+    what the model reads off the destination list (`View`). -/
+theorem insertBeforeTail_core {f : Forest} {c : Nat} {t : HTree} {q : Nat} {vq : Value} {A : List HTree}
+    {kr : HTree} {B : List HTree} {X Y : Forest} {φ : HTree → HTree} (inv : f.Inv)
+    (F : Far f (Keep.resident c) c t q vq (A ++ kr :: B) X Y φ) (V : View f (A ++ kr :: B))
+    (hpar : f.parent? kr.handle = some q)
+    (hprevV : X = f → f.prevSibling kr.handle = prevOf A kr)
+    (hplace : X.checkedInsertBefore kr.handle c = (Y.editAt (some q) (insertBeforeTop kr.handle t), true))
     (hgc : f.get? c = some t) (hX : X = f ∨ textData t = none) (hrc : kr.handle ≠ c)
-    (hkrn : kr.value.isNormal = true) (hq : q ∉ handles t)
+    (hkrn : kr.value.isNormal = true)
     (hsame : ¬ prevOf A kr = some c)
     (hocc : Dest.occupiedBy f c (.before kr.handle) = false) :
     (insertBeforeTail X kr.handle c).1 = specMove (Keep.resident c) (.before kr.handle) c f := by
   have htc : t.handle = c := (findList?_some f.roots t hgc).1
   have hsite : Dest.site f (.before kr.handle) = some q := by
-    simp only [Dest.site]; exact Forest.parent?_of_ctx sq.ctx
+    simp only [Dest.site]; exact hpar
   have hspec := F.spec (.before kr.handle) hocc hsite (fun ψ hk hψ => natFor_insertBeforeTop hk _ hψ)
   simp only [Dest.insert] at hspec
   rw [hspec]
@@ -52,18 +55,7 @@ theorem insertBeforeTail_far {f : Forest} {c : Nat} {t : HTree} {q : Nat} {vq : 
   have hstrictY : f.consolidation = true → noAdjacentText (A.map φ ++ φ kr :: B.map φ) = true := by
     intro hc
     rw [← hmapL, noAdj_map F.kid]
-    exact (validTree_node (sq.valid (norm hc))).2.2.1 rfl
-  have hplace : (X.checkedInsertBefore kr.handle c) =
-      (Y.editAt (some q) (insertBeforeTop kr.handle t), true) := by
-    obtain ⟨φ', hk', sXq⟩ := hxs
-    have hm : (A ++ kr :: B).map φ' = A.map φ' ++ φ' kr :: B.map φ' := by simp
-    rw [hm] at sXq
-    have := Forest.checkedInsertBefore_ok F.xget sXq hq (by rw [hk'.handle]; exact hrc)
-    rw [hk'.handle] at this
-    rw [this, F.xcut]
-    have hctx := sY.ctx
-    rw [F.kid.handle] at hctx
-    rw [Forest.placeBefore_of_ctx t sY.nd hctx]
+    exact V.noadj hc
   have flow1 : X.addConsolidate c (X.prevSibling kr.handle) (some kr.handle) = (X, false) →
       (f.consolidation = true → ∀ ka, A.getLast? = some ka → ¬ (ka.value.isText = true ∧ t.value.isText = true)) →
       (f.consolidation = true → ¬ (t.value.isText = true ∧ kr.value.isText = true)) →
@@ -117,10 +109,10 @@ theorem insertBeforeTail_far {f : Forest} {c : Nat} {t : HTree} {q : Nat} {vq : 
     subst hXf
     have htt : t.value.isText = true := isText_iff_textData.2 ⟨tc, htd⟩
     have hleaf_t : t.kids = [] := leaf_of_text inv.valid hgc htt
-    have hkr_get : X.get? kr.handle = some kr := sq.getKid
-    have hprevS : X.prevSibling kr.handle = prevOf A kr := Forest.prevSibling_of_ctx sq.ctx
-    have hleafL := sq.leaf inv.valid
-    obtain ⟨ndL, _⟩ := sq.nodupKids
+    have hkr_get : X.get? kr.handle = some kr := V.get kr (by simp)
+    have hprevS : X.prevSibling kr.handle = prevOf A kr := hprevV rfl
+    have hleafL := V.leaf
+    have ndL := V.nd
     obtain ⟨tA, tB⟩ := tops_ne_of_nodup ndL
     -- is there a text node directly before the reference?
     have prevCase : (∃ A2 ka ta, A = A2 ++ [ka] ∧ textData ka = some ta) ∨
@@ -145,10 +137,7 @@ theorem insertBeforeTail_far {f : Forest} {c : Nat} {t : HTree} {q : Nat} {vq : 
             have hk : ka = ka' := by simpa using this.2
             subst hk
             subst eA
-            have ska : SiteAt X q vq (A2 ++ ka :: (kr :: B)) := by
-              have : A2 ++ ka :: (kr :: B) = (A2 ++ [ka]) ++ kr :: B := by simp
-              rw [this]; exact sq
-            rw [← eka', Forest.textOf_of_get ska.getKid]; exact hta
+            rw [← eka', Forest.textOf_of_get (V.get ka (by simp))]; exact hta
           · intro ka' h hx
             cases h
             obtain ⟨z, hz⟩ := isText_iff_textData.1 hx
@@ -156,9 +145,7 @@ theorem insertBeforeTail_far {f : Forest} {c : Nat} {t : HTree} {q : Nat} {vq : 
     rcases prevCase with ⟨A2, ka, ta, eA, hta⟩ | ⟨hprevNone, hprevNT⟩
     · -- merged into the text node before the reference: the earlier node survives
       subst eA
-      have ska : SiteAt X q vq (A2 ++ ka :: (kr :: B)) := by
-        have : A2 ++ ka :: (kr :: B) = (A2 ++ [ka]) ++ kr :: B := by simp
-        rw [this]; exact sq
+      have hka_get : X.get? ka.handle = some ka := V.get ka (by simp)
       have hkat : ka.value.isText = true := isText_iff_textData.2 ⟨ta, hta⟩
       have hcat : (ka.value.category == kr.value.category) = true := by
         have h1 : ka.value.category = .normal := text_category hkat
@@ -169,10 +156,12 @@ theorem insertBeforeTail_far {f : Forest} {c : Nat} {t : HTree} {q : Nat} {vq : 
       have hr2 : X.addConsolidate c (X.prevSibling kr.handle) (some kr.handle) =
           ((X.setValue ka.handle (.text (ta ++ tc))).spliceOut c, true) := by
         rw [hprevS, hpv]
-        exact Forest.addConsolidate_prev hc (hXtext.trans htd) ((Forest.textOf_of_get ska.getKid).trans hta) _
+        exact Forest.addConsolidate_prev hc (hXtext.trans htd) ((Forest.textOf_of_get hka_get).trans hta) _
       have hflow := F.flow2 rfl ka.handle (.text (ta ++ tc)) ⟨ka, by simp, rfl⟩ hkac hleaf_t (by
         intro k' hk' e
-        obtain ⟨ndL2, _⟩ := ska.nodupKids
+        have ndL2 : (handlesList (A2 ++ ka :: (kr :: B))).Nodup := by
+          have := V.nd
+          rwa [show (A2 ++ [ka]) ++ kr :: B = A2 ++ ka :: (kr :: B) by simp] at this
         obtain ⟨tA2, tB2⟩ := tops_ne_of_nodup ndL2
         have : k' = ka := by
           have hk'' : k' ∈ A2 ++ ka :: (kr :: B) := by simpa using hk'
@@ -266,6 +255,32 @@ theorem insertBeforeTail_far {f : Forest} {c : Nat} {t : HTree} {q : Nat} {vq : 
             exact hprevNT ka hAl h1
         rw [mergeRuns_seam _ (textData_some htd) hvkr hAt hkrB]
         simp [join, Keep.resident, htc]
+
+/-- The far geometry. -/
+theorem insertBeforeTail_far {f : Forest} {c : Nat} {t : HTree} {q : Nat} {vq : Value} {A : List HTree}
+    {kr : HTree} {B : List HTree} {X Y : Forest} {φ : HTree → HTree} (inv : f.Inv) (norm : f.Normal)
+    (F : Far f (Keep.resident c) c t q vq (A ++ kr :: B) X Y φ) (sq : SiteAt f q vq (A ++ kr :: B))
+    (hxs : ∃ φ', KidMap φ' ∧ SiteAt X q vq ((A ++ kr :: B).map φ'))
+    (hgc : f.get? c = some t) (hX : X = f ∨ textData t = none) (hrc : kr.handle ≠ c)
+    (hkrn : kr.value.isNormal = true) (hq : q ∉ handles t)
+    (hsame : ¬ prevOf A kr = some c)
+    (hocc : Dest.occupiedBy f c (.before kr.handle) = false) :
+    (insertBeforeTail X kr.handle c).1 = specMove (Keep.resident c) (.before kr.handle) c f := by
+  have hplace : (X.checkedInsertBefore kr.handle c) =
+      (Y.editAt (some q) (insertBeforeTop kr.handle t), true) := by
+    obtain ⟨φ', hk', sXq⟩ := hxs
+    have hm : (A ++ kr :: B).map φ' = A.map φ' ++ φ' kr :: B.map φ' := by simp
+    rw [hm] at sXq
+    have := Forest.checkedInsertBefore_ok F.xget sXq hq (by rw [hk'.handle]; exact hrc)
+    rw [hk'.handle] at this
+    rw [this, F.xcut]
+    have hmapL : (A ++ kr :: B).map φ = A.map φ ++ φ kr :: B.map φ := by simp
+    have sY : SiteAt Y q vq (A.map φ ++ φ kr :: B.map φ) := hmapL ▸ F.ysite
+    have hctx := sY.ctx
+    rw [F.kid.handle] at hctx
+    rw [Forest.placeBefore_of_ctx t sY.nd hctx]
+  exact insertBeforeTail_core inv F (View.of_site inv norm sq) (Forest.parent?_of_ctx sq.ctx)
+    (fun _ => Forest.prevSibling_of_ctx sq.ctx) hplace hgc hX hrc hkrn hsame hocc
 
 theorem occupied_before {f : Forest} {c : Nat} {t : HTree} {q : Nat} {vq : Value} {A : List HTree} {kr : HTree}
     {B : List HTree} (sq : SiteAt f q vq (A ++ kr :: B)) (hgc : f.get? c = some t)
